@@ -12,10 +12,6 @@ verus! {
 //@include contracts/shared/std_specs.rs
 //@include contracts/shared/utf8_specs.rs
 
-impl Clone for StructureTag {
-    #[verifier::external_body]
-    fn clone(&self) -> (r: StructureTag) ensures r == *self { unimplemented!() }
-}
 //@include contracts/shared/lift_structure_tag.rs
 
 #[derive(Clone, Copy)]
